@@ -369,7 +369,7 @@ UNIT = dict(
                  "let mut i: usize = 0;\n        while i < self.state.memory.len()\n/*LOOP0*/\n        {\n            let area = &self.state.memory[i];", 1),
                 ("E8", r"(area_to_resize = Some\(i\);\s*)continue;", r"\1i += 1;\n                    continue;", 1),
                 ("E8", r"(\n        )\}(\n\n        if let Some\(i\) = area_to_resize \{)", r"\1    i += 1;\1}\2", 1),
-                ("E8", r"std::cmp::min\(old_data\.len\(\), new_data\.len\(\)\)", "min_usize(old_data.len(), new_data.len())", 1),
+                ("E8", r"std::cmp::min\(", "min_usize(", None),
                 ("E8", r"new_data\[\.\.copy_len\]\.copy_from_slice\(&old_data\[\.\.copy_len\]\);", "vec_copy_into(&mut new_data, 0, &old_data[..copy_len]);", 1),
                 ("E8", r"let mut area_to_resize = None;", "let mut area_to_resize: Option<usize> = None;", 1),
             ],
@@ -416,7 +416,7 @@ UNIT = dict(
             },
 """,
             rewrites=[
-                ("E8", r"std::cmp::max\(length, 1\)", "max_u64(length, 1)", 1),
+                ("E8", r"std::cmp::max\(", "max_u64(", None),
                 ("E8", r"loop \{", "loop\n/*LOOP0*/\n        {", 1),
             ],
             annotations=[
@@ -451,7 +451,7 @@ UNIT = dict(
             },
 """,
             rewrites=[
-                ("E8", r"std::cmp::max\(data\.len\(\) as u64, 1\)", "max_u64(data.len() as u64, 1)", 1),
+                ("E8", r"std::cmp::max\(", "max_u64(", None),
                 ("E8", r"loop \{", "loop\n/*LOOP0*/\n        {", 1),
             ],
             annotations=[
